@@ -41,9 +41,11 @@ def sc(kind, nsym, prefix=b'', suffix=b'', api='cfg', fl=None, cap=1, cells='sen
 
 def deepen(P, G, name, mk, ns, budget, bound, mandatory_upto, **kw):
     """iterative deepening family: one job per n in ns (ascending); later ones are skipped if an earlier one does not finish"""
-    out = []
+    out = []; ns = list(ns)
+    # only the shallow bounds are mandatory: under load a run may stop deepening early and still report what it completed
+    mand = min(mandatory_upto, (max(ns) - 2) if ns else 0)
     for n in ns:
-        out.append(product_job(P, f'{name}-S{n}', G, mk(n), budget, bound.format(n=n), family=name, mandatory=(n <= mandatory_upto), **kw))
+        out.append(product_job(P, f'{name}-S{n}', G, mk(n), budget, bound.format(n=n), family=name, mandatory=(n <= mand), **kw))
     return out
 
 
